@@ -194,6 +194,12 @@ func cmdCheck(args []string) int {
 		// a tree that does not load cannot be checked; this is an infrastructure failure, not a violation
 		return 2
 	}
+	if *tier == "thorough" {
+		// deeper exploration: reachability of every return path (anti-vacuity) and the unclaimed safety sweep;
+		// both are reported in the evidence, neither can raise a violation
+		e.reach = true
+		e.sweep = true
+	}
 	tmp, err := os.MkdirTemp("", "fvc-"+*prop+"-")
 	if err != nil {
 		fmt.Fprintln(os.Stderr, err)
@@ -252,19 +258,42 @@ func cmdCheck(args []string) int {
 			}
 		}
 	}
-	var obls []*Obligation
+	var obls, reachObls, sweepObls []*Obligation
 	for _, res := range results {
 		for _, o := range res.Obligations {
 			if len(o.Tags) > 0 && !hasTag(o.Tags, *prop) {
 				continue // belongs to another property only
 			}
+			if o.Kind == "reach" {
+				reachObls = append(reachObls, o)
+				continue
+			}
 			if !o.Claimed {
+				sweepObls = append(sweepObls, o)
 				continue
 			}
 			obls = append(obls, o)
 		}
 	}
 	solveAll(obls, tmp, timeout, 16, agree)
+	var unreachable, sweepOpen []string
+	sweepDone := 0
+	if *tier == "thorough" {
+		solveAll(reachObls, tmp, 5000, 16, false)
+		for _, o := range reachObls {
+			if o.Result == "unsat" {
+				unreachable = append(unreachable, o.Name)
+			}
+		}
+		solveAll(sweepObls, tmp, 10000, 16, false)
+		for _, o := range sweepObls {
+			if o.Result == "unsat" {
+				sweepDone++
+			} else {
+				sweepOpen = append(sweepOpen, o.Name+" ("+o.Result+")")
+			}
+		}
+	}
 
 	isKnown := func(name string) *KnownFinding {
 		for i := range e.known {
@@ -422,6 +451,13 @@ func cmdCheck(args []string) int {
 			"samples":                  samples,
 			"bounded_stand_ins":        bounded,
 		}}
+	if *tier == "thorough" {
+		ev.Coverage["return_paths_checked_for_reachability"] = len(reachObls)
+		ev.Coverage["unreachable_return_paths"] = unreachable
+		ev.Coverage["unreachable_note"] = "a return path that no input reaches under the stated assumptions (e.g. 'the lister fails only with NotFound'); reviewed by hand, reported, never a violation"
+		ev.Coverage["unclaimed_safety_sweep"] = map[string]interface{}{"obligations": len(sweepObls), "discharged": sweepDone, "open": sweepOpen,
+			"note": "nil / index / overflow / alloc / type-assertion obligations of bodies whose contract does not claim them; informational"}
+	}
 	os.MkdirAll(filepath.Join(*outDir, "evidence"), 0o755)
 	data, _ := json.MarshalIndent(ev, "", " ")
 	os.WriteFile(filepath.Join(*outDir, "evidence", *prop+".json"), data, 0o644)
